@@ -192,9 +192,9 @@ impl TcpListener {
 ///
 /// hyper computes its deadlines from `std::time::Instant::now()`, which does
 /// not follow tokio's paused (virtual) clock.  This timer converts each
-/// deadline back into the duration hyper asked for (rounded to 100 ms, far
-/// coarser than the real time that can pass between hyper reading the clock
-/// and calling us) and sleeps that long on tokio's clock, so that hyper's
+/// deadline back into the duration hyper asked for (rounded to 100 ms, or to
+/// 10 ms below 100 ms: far coarser than the real time that can pass between
+/// hyper reading the clock and calling us) and sleeps that long on tokio's clock, so that hyper's
 /// timeouts run in virtual time and are reproducible.
 #[derive(Clone, Debug, Default)]
 pub struct SimTimer;
@@ -218,7 +218,11 @@ impl hyper::rt::Sleep for SimSleep {}
 
 fn virtual_duration(deadline: std::time::Instant) -> std::time::Duration {
     let d = deadline.saturating_duration_since(std::time::Instant::now());
-    let ms = (d.as_millis() as u64 + 50) / 100 * 100;
+    let raw = d.as_millis() as u64;
+    // Durations below 100 ms are rounded to 10 ms instead, so that a short
+    // timeout does not collapse to zero.
+    let ms =
+        if raw < 95 { (raw + 5) / 10 * 10 } else { (raw + 50) / 100 * 100 };
     std::time::Duration::from_millis(ms)
 }
 
